@@ -5,8 +5,10 @@
 
 static const char *MATGENS[] = { "rand", "rand", "rank", "sparse", "zero", "id", "one" };
 
+static int g_deep, g_strat = -1;
 int gen_dim(rng_t *r, int maxd) {
   if (maxd < 1) maxd = 1;
+  if (g_deep && maxd >= 200 && rng_below(r, 4) != 0) return 257 + (int)rng_below(r, 330); /* beyond the 256 of the smallest __M4RI_MUL_BLOCKSIZE */
   int d;
   switch (rng_below(r, 10)) {
   case 0: case 1: d = 1 + (int)rng_below(r, 12); break;
@@ -25,6 +27,14 @@ int gen_dim(rng_t *r, int maxd) {
 }
 
 static int g_winprob; /* set by gen_case from its options */
+/* number of columns with a chosen number of words per row: the unrolled kernels (`_mzd_add` has one case per width 1..8 and a
+ * generic one) and the SSE2 paths (more than 2 or 4 words) each need their width */
+static int width_cols(rng_t *r, int cls) {
+  int w = cls >= 0 ? 1 + cls % 10 : 1 + (int)rng_below(r, 10);
+  if (rng_chance(r, 1, 6)) w += 8; /* more than 8 words past the start: full rounds of the unrolled loops */
+  int off[] = { 1, 64, 63, 2, 17, 33 };
+  return 64 * (w - 1) + (rng_chance(r, 1, 2) ? off[rng_below(r, 6)] : 1 + (int)rng_below(r, 64));
+}
 static void emit_mat(rng_t *r, sbuf_t *o, int reg, int m, int n, const char *force_gen, long force_p) {
   const char *g = force_gen ? force_gen : MATGENS[rng_below(r, sizeof MATGENS / sizeof MATGENS[0])];
   long p = force_p;
@@ -66,13 +76,13 @@ static int wide_ple_shape(rng_t *r, sbuf_t *o, int reg, int *m_out, int *n_out) 
 }
 
 const char *const gen_all_ops[] = {
-  "mul_naive", "addmul_naive", "mul_va", "mul_naive_t", "mul_m4rm", "addmul_m4rm", "mul", "addmul", "sqr", "djb",
+  "mul_naive", "addmul_naive", "mul_va", "mul_naive_t", "mul_m4rm", "addmul_m4rm", "mul", "addmul", "sqr", "addsqr", "djb",
   "ech_naive", "ech_m4ri", "ech_pluq", "ech", "top_ech",
   "ple", "pluq", "ple_naive", "pluq_naive", "ple_russian", "pluq_russian",
   "trsm_ul", "trsm_ll", "trsm_ur", "trsm_lr", "trtri", "inv_m4ri", "invert_naive",
   "solve", "pluq_solve", "kernel",
   "add", "transpose", "copy", "submatrix", "concat", "stack", "extract_u", "extract_l", "set_ui", "cmp",
-  "ap_left", "ap_left_trans", "ap_right", "ap_right_trans", "ap_right_trans_tri",
+  "ap_left", "ap_left_trans", "ap_right", "ap_right_trans", "ap_right_trans_tri", "ap_capped",
   "mzp_copy", "mzp_window", "col_swap", "row_swap", "row_add", "from_str", "window_cycle", "window_burst",
   "row_add_full", "copy_row", "col_swap_rows", "gauss", "density", "find_pivot", "randomize_custom", "row_clear_offset",
   "bits", "combine", "m4rm_step", "trtri_russian", "hash", "fprint", "info", "mzp_set_ui",
@@ -82,9 +92,16 @@ int gen_nops(void) { int n = 0; while (gen_all_ops[n]) n++; return n; }
 
 /* Emits operand lines and the op line.  Uses matrix registers rb.. and perm registers pb..  Returns number of
  * matrix registers consumed (>=0), or -1 for an unknown op. */
+static int gen_case_inner(rng_t *r, const char *op, const genopt_t *g, sbuf_t *o, int rb, int pb);
 int gen_case(rng_t *r, const char *op, const genopt_t *g, sbuf_t *o, int rb, int pb) {
+  g_deep = g->deep; g_strat = g->strat1 - 1; g_winprob = g->winprob;
+  int rc = gen_case_inner(r, op, g, o, rb, pb);
+  g_deep = 0; g_strat = -1;
+  return rc;
+}
+static int gen_case_inner(rng_t *r, const char *op, const genopt_t *g, sbuf_t *o, int rb, int pb) {
   int D = g->maxdim;
-  g_winprob = g->winprob;
+  int wide_ok = D >= 200; /* width classes need up to 640 columns */
   int supplied = rng_chance(r, 1, 2); /* destination supplied (with junk) or allocated by the call */
 #define IS(x) (!strcmp(op, x))
   if (IS("mul_naive") || IS("addmul_naive") || IS("mul_va") || IS("mul_m4rm") || IS("addmul_m4rm") || IS("mul") ||
@@ -113,17 +130,19 @@ int gen_case(rng_t *r, const char *op, const genopt_t *g, sbuf_t *o, int rb, int
     sb_printf(o, "op mul_naive_t %d %d %d %d\n", rb, rb + 1, rb + 2, clear);
     return 3;
   }
-  if (IS("sqr")) {
+  if (IS("sqr") || IS("addsqr")) {
     int n = gen_dim(r, D);
     emit_mat(r, o, rb + 1, n, n, NULL, 0);
-    if (supplied) emit_mat(r, o, rb, n, n, "junk", 128);
-    sb_printf(o, "op sqr %d %d %ld\n", rb, rb + 1, pick_cutoff(r, n, n, n));
+    if (IS("addsqr")) { if (rng_chance(r, 3, 4)) emit_mat(r, o, rb, n, n, "rand", 128); }
+    else if (supplied) emit_mat(r, o, rb, n, n, "junk", 128);
+    sb_printf(o, "op %s %d %d %ld\n", op, rb, rb + 1, pick_cutoff(r, n, n, n));
     return 2;
   }
   if (IS("ech_naive") || IS("ech_m4ri") || IS("ech_pluq") || IS("ech") || IS("top_ech")) {
     int m = gen_dim(r, D), n = gen_dim(r, D);
     if (IS("ech_naive") && m > 500) m = 1 + m % 500;
     int hybrid = 0;
+    if ((IS("ech_pluq") || IS("ech")) && g_deep && rng_chance(r, 1, 2)) { n = 513 + (int)rng_below(r, 200); m = 8192 / ((n + 63) / 64) + 1 + (int)rng_below(r, 100); }
     if (IS("ech") && D >= 200 && rng_chance(r, 1, 2)) { /* density-switching hybrid: first pivot beyond column 256, remaining block denser than the switching threshold (0.15), whole matrix sparser */
       hybrid = 1;
       m = 40 + (int)rng_below(r, 260); n = 640 + (int)rng_below(r, 400);
@@ -145,6 +164,11 @@ int gen_case(rng_t *r, const char *op, const genopt_t *g, sbuf_t *o, int rb, int
   if (IS("ple") || IS("pluq") || IS("ple_naive") || IS("pluq_naive") || IS("ple_russian") || IS("pluq_russian")) {
     int m = gen_dim(r, D), n = gen_dim(r, D);
     if ((IS("ple_naive") || IS("pluq_naive")) && m > 400) m = 1 + m % 400;
+    if (!IS("ple_naive") && !IS("pluq_naive") && g_deep && rng_chance(r, 2, 3)) { /* more than L3/8 = 8192 words: the recursive _mzd_ple/_mzd_pluq with its column splits, A10/A11 updates and compression of L */
+      n = 513 + (int)rng_below(r, 260);
+      m = 8192 / ((n + 63) / 64) + 1 + (int)rng_below(r, 200);
+      emit_mat(r, o, rb, m, n, rng_chance(r, 1, 2) ? "rank" : NULL, 1 + (long)rng_below(r, (uint64_t)(m < n ? m : n)));
+    } else
     if (!IS("ple_naive") && !IS("pluq_naive") && D >= 200 && rng_chance(r, 1, 3)) wide_ple_shape(r, o, rb, &m, &n);
     else emit_mat(r, o, rb, m, n, rng_chance(r, 1, 2) ? "rank" : NULL, 1 + (long)rng_below(r, (uint64_t)(m < n ? m : n)));
     emit_perm(r, o, pb, m, rng_chance(r, 1, 2) ? "junk" : "id");
@@ -181,6 +205,7 @@ int gen_case(rng_t *r, const char *op, const genopt_t *g, sbuf_t *o, int rb, int
   }
   if (IS("solve") || IS("pluq_solve")) {
     int m = gen_dim(r, D), n = gen_dim(r, D), w = gen_dim(r, D);
+    if (g_deep && rng_chance(r, 1, 2)) { n = 513 + (int)rng_below(r, 200); m = 8192 / ((n + 63) / 64) + 1 + (int)rng_below(r, 100); w = 1 + (int)rng_below(r, 200); }
     emit_mat(r, o, rb, m, n, rng_chance(r, 1, 2) ? "rank" : NULL, 1 + (long)rng_below(r, (uint64_t)(m < n ? m : n)));
     emit_mat(r, o, rb + 1, m > n ? m : n, w, rng_chance(r, 1, 3) ? "zero" : NULL, 0);
     long cs[] = { 0, 0, 64, 128, 256 };
@@ -189,23 +214,30 @@ int gen_case(rng_t *r, const char *op, const genopt_t *g, sbuf_t *o, int rb, int
   }
   if (IS("kernel")) {
     int m = gen_dim(r, D), n = gen_dim(r, D);
-    if (D >= 200 && rng_chance(r, 1, 4)) wide_ple_shape(r, o, rb + 1, &m, &n);
+    if (g_deep && rng_chance(r, 1, 2)) { n = 513 + (int)rng_below(r, 200); m = 8192 / ((n + 63) / 64) + 1 + (int)rng_below(r, 100); emit_mat(r, o, rb + 1, m, n, "rank", 1 + (long)rng_below(r, (uint64_t)n)); }
+    else if (D >= 200 && rng_chance(r, 1, 4)) wide_ple_shape(r, o, rb + 1, &m, &n);
     else emit_mat(r, o, rb + 1, m, n, rng_chance(r, 1, 2) ? "rank" : NULL, 1 + (long)rng_below(r, (uint64_t)(m < n ? m : n)));
     long cs[] = { 0, 0, 64, 128, 256 };
     sb_printf(o, "op kernel %d %d %ld\n", rb, rb + 1, cs[rng_below(r, 5)]);
     return 2;
   }
   if (IS("add")) {
-    int m = gen_dim(r, D), n = gen_dim(r, D);
+    int m = gen_dim(r, D > 300 ? 300 : D), n = gen_dim(r, D);
+    int mode = (int)rng_below(r, 4); /* 0: allocate, 1: supplied, 2: C==A, 3: C==B */
+    if (wide_ok) { n = width_cols(r, g_strat >= 0 ? g_strat % 40 : -1); if (g_strat >= 0) mode = (g_strat % 40) / 10; } /* every (width class, aliasing mode) pair within 40 cases */
     emit_mat(r, o, rb + 1, m, n, NULL, 0);
     emit_mat(r, o, rb + 2, m, n, NULL, 0);
-    int mode = (int)rng_below(r, 4); /* 0: allocate, 1: supplied, 2: C==A, 3: C==B */
     if (mode == 1) emit_mat(r, o, rb, m, n, "junk", 128);
     sb_printf(o, "op add %d %d %d\n", mode == 2 ? rb + 1 : mode == 3 ? rb + 2 : rb, rb + 1, rb + 2);
     return 3;
   }
   if (IS("transpose") || IS("copy")) {
     int m = gen_dim(r, D), n = gen_dim(r, D);
+    if (IS("copy") && wide_ok && rng_chance(r, 1, 2)) n = width_cols(r, g_strat);
+    if (IS("transpose") && D >= 400 && rng_chance(r, 1, 4)) { /* beyond one 512-block and beyond 768: the recursive splits of _mzd_transpose_notsmall */
+      int big[] = { 513, 577, 640, 769, 800, 900, 1025, 1100 };
+      if (rng_chance(r, 1, 2)) m = big[rng_below(r, 8)] + (int)rng_below(r, 30); else n = big[rng_below(r, 8)] + (int)rng_below(r, 30);
+    }
     emit_mat(r, o, rb + 1, m, n, NULL, 0);
     if (supplied) { if (IS("copy")) emit_mat(r, o, rb, m, n, "junk", 128); else emit_mat(r, o, rb, n, m, "junk", 128); }
     sb_printf(o, "op %s %d %d\n", op, rb, rb + 1);
@@ -222,6 +254,7 @@ int gen_case(rng_t *r, const char *op, const genopt_t *g, sbuf_t *o, int rb, int
   }
   if (IS("concat") || IS("stack")) {
     int m = gen_dim(r, D), n = gen_dim(r, D), x = gen_dim(r, D);
+    if (rng_chance(r, 1, 2)) x = 1 + (int)rng_below(r, 20); /* a narrow / short second part leaves the first part's last word (row) next to the result's edge */
     if (IS("concat")) { emit_mat(r, o, rb + 1, m, n, NULL, 0); emit_mat(r, o, rb + 2, m, x, NULL, 0); if (supplied) emit_mat(r, o, rb, m, n + x, "junk", 128); }
     else { emit_mat(r, o, rb + 1, m, n, NULL, 0); emit_mat(r, o, rb + 2, x, n, NULL, 0); if (supplied) emit_mat(r, o, rb, m + x, n, "junk", 128); }
     sb_printf(o, "op %s %d %d %d\n", op, rb, rb + 1, rb + 2);
@@ -249,6 +282,14 @@ int gen_case(rng_t *r, const char *op, const genopt_t *g, sbuf_t *o, int rb, int
     else emit_mat(r, o, rb + 1, rng_chance(r, 1, 2) ? m : gen_dim(r, D), n, NULL, 0);
     sb_printf(o, "op cmp %d %d\n", rb, rb + 1);
     return 2;
+  }
+  if (IS("ap_capped")) {
+    int m = gen_dim(r, D), n = gen_dim(r, D);
+    int len = rng_chance(r, 1, 3) ? 1 + (int)rng_below(r, (uint64_t)n) : n;
+    emit_mat(r, o, rb, m, n, NULL, 0);
+    emit_perm(r, o, pb, len, rng_chance(r, 1, 6) ? "id" : "rand");
+    sb_printf(o, "op ap_capped %d %d %d %d %d\n", rb, pb, rng_chance(r, 1, 2) ? 0 : (int)rng_below(r, (uint64_t)m + 1), rng_chance(r, 1, 2) ? 0 : (int)rng_below(r, (uint64_t)len + 1), (int)rng_below(r, 2));
+    return 1;
   }
   if (!strncmp(op, "ap_", 3)) {
     int m = gen_dim(r, D), n = gen_dim(r, D);
@@ -282,21 +323,21 @@ int gen_case(rng_t *r, const char *op, const genopt_t *g, sbuf_t *o, int rb, int
     return 1;
   }
   if (IS("row_add")) {
-    int m = 2 + gen_dim(r, D), n = gen_dim(r, D);
+    int m = 2 + gen_dim(r, D > 100 ? 100 : D), n = wide_ok && rng_chance(r, 1, 2) ? width_cols(r, g_strat) : gen_dim(r, D);
     emit_mat(r, o, rb, m, n, NULL, 0);
     int a = (int)rng_below(r, (uint64_t)m), b = (a + 1 + (int)rng_below(r, (uint64_t)(m - 1))) % m;
     sb_printf(o, "op row_add %d %d %d %d\n", rb, a, b, (int)rng_below(r, (uint64_t)n));
     return 1;
   }
   if (IS("row_add_full")) {
-    int m = 2 + gen_dim(r, D), n = gen_dim(r, D);
+    int m = 2 + gen_dim(r, D > 100 ? 100 : D), n = wide_ok ? width_cols(r, g_strat) : gen_dim(r, D);
     emit_mat(r, o, rb, m, n, NULL, 0);
     int a = (int)rng_below(r, (uint64_t)m), b = (a + 1 + (int)rng_below(r, (uint64_t)(m - 1))) % m;
     sb_printf(o, "op row_add_full %d %d %d\n", rb, a, b);
     return 1;
   }
   if (IS("copy_row")) {
-    int m = gen_dim(r, D), n = gen_dim(r, D), m2 = gen_dim(r, D);
+    int m = gen_dim(r, D > 100 ? 100 : D), n = wide_ok ? width_cols(r, g_strat) : gen_dim(r, D), m2 = gen_dim(r, D > 100 ? 100 : D);
     int extra = rng_chance(r, 1, 2) ? 0 : (int)rng_below(r, 130);
     emit_mat(r, o, rb + 1, m, n, NULL, 0);
     emit_mat(r, o, rb, m2, n + extra, "rand", 128);
@@ -333,7 +374,7 @@ int gen_case(rng_t *r, const char *op, const genopt_t *g, sbuf_t *o, int rb, int
     return 1;
   }
   if (IS("randomize_custom")) {
-    int m = gen_dim(r, D), n = gen_dim(r, D);
+    int m = gen_dim(r, D > 100 ? 100 : D), n = wide_ok ? width_cols(r, g_strat) : gen_dim(r, D);
     emit_mat(r, o, rb, m, n, "junk", 128);
     sb_printf(o, "op randomize_custom %d %llu\n", rb, (unsigned long long)(rng_u64(r) >> 2));
     return 1;
@@ -357,7 +398,7 @@ int gen_case(rng_t *r, const char *op, const genopt_t *g, sbuf_t *o, int rb, int
     return 1;
   }
   if (IS("combine")) {
-    int m = gen_dim(r, D), n = gen_dim(r, D);
+    int m = gen_dim(r, D > 100 ? 100 : D), n = wide_ok ? width_cols(r, g_strat) : gen_dim(r, D);
     int inplace = (int)rng_below(r, 3) == 0;
     emit_mat(r, o, rb + 1, m, n, NULL, 0);
     emit_mat(r, o, rb + 2, m, n, NULL, 0);
